@@ -6,11 +6,16 @@
 (* value has exactly the mantissa and scale of the digit string.           *)
 (***************************************************************************)
 EXTENDS Values, Chars, FiniteSets
+\* significant digits: from the first non-zero digit to the end (leading zeros, also those behind the point of 0.00..1, do not count)
+DigitsOf(cs) == SelectSeq(cs, LAMBDA c : IsDigit(c))
+FirstNonZero(ds) == IF \E k \in 1..Len(ds) : ds[k] # 48 THEN CHOOSE k \in 1..Len(ds) : ds[k] # 48 /\ \A j \in 1..(k - 1) : ds[j] = 48 ELSE Len(ds) + 1
+SigDigits(cs) == Len(DigitsOf(cs)) - FirstNonZero(DigitsOf(cs)) + 1
+LitScaleOf(cs) == IF \E k \in 1..Len(cs) : cs[k] = DOT THEN Len(cs) - (CHOOSE k \in 1..Len(cs) : cs[k] = DOT) ELSE 0
 LitVerdict(cs) ==
   IF cs = <<>> \/ ~IsDigit(cs[1]) THEN "err"
   ELSE IF \E k \in 1..Len(cs) : ~(IsDigit(cs[k]) \/ cs[k] = DOT) THEN "err"
   ELSE IF Cardinality({k \in 1..Len(cs) : cs[k] = DOT}) > 1 THEN "err"
-  ELSE IF Cardinality({k \in 1..Len(cs) : IsDigit(cs[k])}) > 28 THEN "dc"
+  ELSE IF SigDigits(cs) > 28 \/ LitScaleOf(cs) > 28 THEN "dc"      \* beyond "up to 28 significant digits": rounded or refused, not pinned
   ELSE "ok"
 RECURSIVE LitMant(_, _, _)
 LitMant(cs, k, acc) == IF k > Len(cs) THEN acc
